@@ -40,6 +40,16 @@ Theorem compaction_safe_never_full : forall bs sched, Forall ign_nodata sched ->
 Proof. exact compaction_safe_never_full_lemma. Qed.
 Print Assumptions compaction_safe_never_full.
 
+(* ... and after EVERY iteration of the read loop (the state after any prefix of the schedule): the unparsed bytes are at the
+   front of the buffer, fewer than one packet of them, and at least one whole packet of space is free for the next Read - also when a
+   block boundary falls exactly on the end of the buffer with nothing pending.  (A compaction rule that does not reset the offsets in
+   that situation leaves tlvOff = recvOff = buffer size: every later Read gets an empty slice and the loop spins.) *)
+Theorem every_iteration_leaves_room : forall bs sched k, Forall ign_nodata sched -> Forall wf_block bs ->
+  let st := snd (run true (concat bs) (firstn k sched)) in
+  tlvOff st = 0 /\ lenN (unread st) < c_MaxNDNPacketSize /\ c_MaxNDNPacketSize <= c_recvBufSize - recvOff st.
+Proof. exact every_iteration_leaves_room_lemma. Qed.
+Print Assumptions every_iteration_leaves_room.
+
 (* The decomposition of the core theorem is the one computed by the run-time oracle (split_blocksN), which the
    runner evaluates on the frames observed from the implementation. *)
 Theorem oracle_split_agrees : forall ds rs p,
